@@ -140,6 +140,8 @@ def gen(rs, tier):
         common["reversed_docs"] = True
     if r.random() < 0.3:
         common["prelude_battery"] = r.choice(["fit", "l2_kwargs", "ideal_kwargs", "none"])
+    if bp != "fit" and sub(rs, "zero_max_len").random() < 0.04:
+        common["max_len"] = 0        # a cap of zero periods is a cap like any other (every session is cut to its arrival period)
     rsp = sub(rs, "same_params_object")
     if rsp.random() < 0.2 and bp != "none":
         # the study re-uses ONE battery_params dictionary for all its conversions (an earlier one was made for chargers of
